@@ -110,6 +110,10 @@ typedef struct PartVec {
   PartPtr otherp; struct HamiltonianPart other;   /* landing place for every other element: re-havocked at each access */
   double *other_ev;                     /* ghost buffer for the eigenvalues of `other` (allocation inside loops is not available) */
 } PartVec;
+/* ghost lower bound: when ham_lb_on is set, ham_lb is a number that is <= the lowest eigenvalue of EVERY block (hypothesis: required of
+ * the ghost block, ASSUMED of every other block where it is looked at) -- "for every L: all block minima >= L  ==>  ground energy >= L",
+ * the witness-free half of "the ground energy IS the minimum over the blocks" */
+double ham_lb; _Bool ham_lb_on;
 static inline unsigned long PartVec_size(PartVec *v) { return (unsigned long)v->size; }
 static inline PartPtr *PartVec_at(PartVec *v, unsigned long i)
 {
@@ -123,6 +127,7 @@ static inline PartPtr *PartVec_at(PartVec *v, unsigned long i)
   __CPROVER_havoc_slice(v->other_ev, (size_t)v->other.Eigenvalues.size * 8UL);
   v->other.gmin = nondet_double();
   __CPROVER_assume(v->other.gmin == v->other.gmin);
+  if (ham_lb_on) __CPROVER_assume(ham_lb <= v->other.gmin);      /* hypothesis of the lower-bound clause, instantiated at block i */
   v->otherp.px = &v->other;
   return &v->otherp;
 }
@@ -164,6 +169,7 @@ static inline double HamiltonianPart_getMinimumEigenvalue(struct HamiltonianPart
 __CPROVER_requires(HAM_WF(self))
 /* the ghost block is also the ghost position of minCoeff's contract; the lowest eigenvalues are not NaN (PART INVARIANT) */
 __CPROVER_requires(dense_g_k == self->parts.gidx && dense_g_nonan && !dense_g_minpos_used)
+__CPROVER_requires(ham_lb_on ==> (ham_lb == ham_lb && ham_lb <= self->parts.g.px->gmin))
 __CPROVER_assigns(self->GroundEnergy, VERIF_thrown, dense_g_minpos_used, HAM_GHOST_CACHE(self))
 __CPROVER_ensures(!VERIF_thrown)
 /* C03: not above the lowest eigenvalue of an arbitrary block ... */
@@ -174,19 +180,24 @@ __CPROVER_ensures(D_LE(self->GroundEnergy, self->parts.g.px->gmin))
  * rejected a correct running-minimum rewrite. */
 __CPROVER_ensures(dense_g_minpos_used ==> (0 <= dense_g_minpos && dense_g_minpos < self->S.nblocks))
 __CPROVER_ensures((dense_g_minpos_used && dense_g_minpos == self->parts.gidx) ==> D_SAME(self->GroundEnergy, self->parts.g.px->gmin))
+/* ... and, independently of how the minimum is found: not below any number that is a lower bound of all block minima */
+__CPROVER_ensures(ham_lb_on ==> ham_lb <= self->GroundEnergy)
 //@loop 1
 __CPROVER_assigns(CurrentBlock, VERIF_thrown, HAM_GHOST_CACHE(self), __CPROVER_object_whole(LEV.data))
 __CPROVER_loop_invariant(0 <= CurrentBlock.number && CurrentBlock.number <= NumberOfBlocks.number && NumberOfBlocks.number == (int)self->parts.size && LEV.size == self->S.nblocks)
 __CPROVER_loop_invariant(!VERIF_thrown)
 __CPROVER_loop_invariant(CurrentBlock.number > self->parts.gidx ==> LVBITS(LEV.data[self->parts.gidx]) == LVBITS(self->parts.g.px->gmin))
+/* the entry at the (prophesied) witness position of minCoeff respects the lower bound once it has been written */
+__CPROVER_loop_invariant((ham_lb_on && 0 <= dense_g_minpos && dense_g_minpos < (long)CurrentBlock.number) ==> ham_lb <= LEV.data[dense_g_minpos])
 __CPROVER_decreases(NumberOfBlocks.number - CurrentBlock.number)
 //@end
-//@harness h_Ham_computeGroundEnergy enforce=Hamiltonian_computeGroundEnergy props=C03 min_obl=717 reach=2 timeout=300 defs=-DVERIF_FP_IEEE
+//@harness h_Ham_computeGroundEnergy enforce=Hamiltonian_computeGroundEnergy props=C03 min_obl=760 reach=3 timeout=300 defs=-DVERIF_FP_IEEE
 void h_Ham_computeGroundEnergy(void)
 {
   struct Hamiltonian *p;
   Hamiltonian_computeGroundEnergy(p);
   if (dense_g_minpos == dense_g_k) REACH("exit-witness-is-ghost"); else REACH("exit-witness-other");
+  if (ham_lb_on) REACH("exit-with-lower-bound");
 }
 
 /* ---------------------------------------------------------------------------------------------- getEigenValues */
